@@ -166,7 +166,23 @@ FamOrd ==
    Q |-> << Tup("D","d","tb", Id("u")), Tup("D","d","nba", Id("u")), Tup("D","d","gab", Id("u")),
             Tup("D","d","tnb", Id("u")), Tup("D","d","onb", Id("u")), Tup("D","d","tb", Id("w")) >>]
 
-Fams == [ord |-> FamOrd, cyc |-> FamCyc, ttu2 |-> FamTtu2, diam |-> FamDiam, rw |-> FamRw, nest |-> FamNest, plain |-> FamPlain, rec |-> FamRec, strictx |-> FamStrictX, alias |-> FamAlias]
+\* checks whose SUBJECT is a subject set, on relations that are declared to hold subject sets only: the relationship
+\* D:d#only@(G:g#m) is a direct relationship that only the direct lookup finds
+FamSsq ==
+  [cfg |-> [
+     U |-> [x \in {} |-> Rel(<<>>, None)],
+     G |-> [m |-> Rel(<<<<"U","">>, <<"G","m">>>>, None)],
+     D |-> [only |-> Rel(<<<<"G","m">>>>, None), blocked |-> Rel(<<<<"G","m">>>>, None), par |-> Rel(<<<<"D","">>>>, None),
+            read    |-> Permit(And(<<Or(<<CSS("only")>>), Not(CSS("blocked"))>>)),        \* only && !blocked
+            viaonly |-> Permit(Or(<<TTU("par", "only")>>))]],
+   U |-> << Tup("D","d","only", SS("G","g","m")), Tup("D","d","only", SS("G","h","m")), Tup("D","d","blocked", SS("G","h","m")),
+            Tup("G","g","m", Id("u")), Tup("G","g","m", SS("G","h","m")), Tup("D","d","par", SS("D","p","")),
+            Tup("D","p","only", SS("G","g","m")), Tup("G","h","m", Id("v")) >>,
+   Q |-> << Tup("D","d","only", SS("G","g","m")), Tup("D","d","read", SS("G","g","m")), Tup("D","d","read", SS("G","h","m")),
+            Tup("D","d","viaonly", SS("G","g","m")), Tup("D","d","only", Id("u")), Tup("D","d","read", Id("v")),
+            Tup("D","d","only", SS("G","h","m")) >>]
+
+Fams == [ssq |-> FamSsq, ord |-> FamOrd, cyc |-> FamCyc, ttu2 |-> FamTtu2, diam |-> FamDiam, rw |-> FamRw, nest |-> FamNest, plain |-> FamPlain, rec |-> FamRec, strictx |-> FamStrictX, alias |-> FamAlias]
 \* the alias family's namespaces carry a '-' and cannot be record fields
 CfgOf(f) == IF f = "alias" THEN [n \in {"x", "a", "a-b"} |-> [y \in {} |-> Rel(<<>>, None)]] ELSE Fams[f].cfg
 W_2 == <<1, 100>>
@@ -235,6 +251,7 @@ Witness == CASE FamName = "rw"    -> {{2, 8}, {1, 3, 4, 5, 6}, {2, 3, 5, 6}}
              [] FamName = "alias" -> {{1, 2, 3, 4}, {1, 2, 5, 6}}
              [] FamName = "rec"   -> {{1, 2, 3}, {1, 3, 6, 9}}
              [] FamName = "nest"  -> {{2, 3, 4, 6}, {1, 3, 6}, {2, 4, 6}}    \* p5 denied through b && c only; p1 denied through c; b without c
+             [] FamName = "ssq"   -> {{1, 3, 4}, {1, 2, 3, 5, 8}, {6, 7}}
              [] FamName = "ord"   -> {{2, 3, 4, 6}, {1, 4, 5}, {3, 4, 6, 7}}
              [] FamName = "ttu2"  -> {{1, 2, 3, 4}, {1, 2, 4}, {1, 2, 3, 4, 5, 6, 7}}
              [] FamName = "diam"  -> {{1, 2, 3, 4, 5, 6}, {1, 4, 5, 6, 8}, {1, 2, 3, 4, 5, 6, 9}}
